@@ -425,8 +425,11 @@ impl OptimizationRouter {
                         if constraint_result.success {
                             constraint_result.optimal_value
                         } else {
-                            // Both optimizers failed - use conservative fallback
-                            interval.min
+                            // Both optimizers failed (e.g. the constraints are infeasible) -
+                            // fall back to search, as the maximization path does
+                            return OptimizationAttempt::Fallback(FallbackReason::OptimizerFailure(
+                                OptimizerFailure::ConstraintAnalysisFailed
+                            ));
                         }
                     }
                 } else {
